@@ -15,6 +15,7 @@ import (
 	"slices"
 	"sort"
 	"strings"
+	"syscall"
 	"time"
 
 	"github.com/fluhus/biostuff/formats/bed"
@@ -297,6 +298,7 @@ func init() {
 			{Name: "deepstops", QShards: 2, TShards: 6, Run: c18DeepStops},
 			{Name: "bigfiles", QShards: 4, TShards: 6, StallSec: 90, Run: c18BigFiles},
 			{Name: "manyalive", TShards: 2, StallSec: 90, Run: c18ManyAlive},
+			{Name: "livepipes", StallSec: 60, Run: c18LivePipes},
 		},
 	})
 	register(&Property{
@@ -1586,5 +1588,77 @@ func c18ManyAlive(c *Ctx) {
 			k.Evals(int64(alive))
 			k.Nontrivial([]byte("manyalive"), []byte(it.name))
 		})
+	}
+}
+
+// c18LivePipes: File on a named pipe whose writer is ALIVE — it has sent a few
+// records and keeps its end open (a producer that streams as it computes). The
+// consumer takes one, two or three items and stops. Stopping must return: an
+// iterator that reads on after the stop (to "drain" the pipe, to look for the
+// end) waits for a writer that has nothing more to say. Pinned by the watchdog
+// (the cases take milliseconds).
+func c18LivePipes(c *Ctx) {
+	dir, err := os.MkdirTemp("", "c18-pipes-")
+	if err != nil {
+		return
+	}
+	defer os.RemoveAll(dir)
+	idx := int64(0)
+	for i, it := range c18Streams {
+		if !it.file {
+			continue
+		}
+		for take := 1; take <= 3; take++ {
+			c.Case(idx, func(k *K) {
+				r := k.Rand()
+				var x []byte
+				for try := 0; try < 50 && (len(x) < 40 || len(x) > 30000); try++ {
+					x = wellFormed(r, it.format, 5+r.IntN(4))
+				}
+				var ref []item
+				refName := strings.Replace(it.name, "File", "Reader", 1) // fasta.File -> fasta.Reader, sam.FileHeader -> sam.ReaderHeader
+				for _, cand := range c18Streams {
+					if cand.name == refName {
+						cand.mk(x, "")(func(v item) bool { ref = append(ref, v); return len(ref) < 100 })
+					}
+				}
+				if len(ref) <= take+1 {
+					return
+				}
+				fifo := filepath.Join(dir, fmt.Sprintf("live%d-%d.%s", i, take, it.format))
+				if syscall.Mkfifo(fifo, 0o600) != nil {
+					return
+				}
+				release, done := make(chan struct{}), make(chan struct{})
+				go func() {
+					defer close(done)
+					w, err := os.OpenFile(fifo, os.O_WRONLY, 0)
+					if err != nil {
+						return
+					}
+					w.Write(x)
+					<-release // alive, silent, its end of the pipe open
+					w.Close()
+				}()
+				k.Input("iterator", it.name)
+				k.Input("items_taken_before_the_stop", take)
+				var got []item
+				it.mk(nil, fifo)(func(v item) bool {
+					got = append(got, v)
+					return len(got) < take
+				})
+				close(release)
+				<-done
+				if len(got) != take || !sameTrace(got, ref[:take]) {
+					k.Failf("live-pipe", "%s on a named pipe with a live writer: the %d items before the stop are %s, want %s", it.name, take, traceString(got), traceString(ref[:take]))
+					return
+				}
+				k.Count("stops_on_live_pipes", 1)
+				k.Count("stop_positions", 1)
+				k.Evals(1)
+				k.Nontrivial([]byte("livepipe"), []byte(it.name), []byte{byte(take)})
+			})
+			idx++
+		}
 	}
 }
